@@ -1,23 +1,26 @@
 /-
   Transfer principle for refinement: the result of a compound expression in one environment is refined by
-  that of another compound expression in another environment whenever the parts are.  Instantiated with the
-  same expression it gives monotonicity (MonoLz.lean); with an expression and its simplified form, soundness
-  of the simplifier (Props/C02Sound.lean).
+  that of another compound expression in another environment whenever the parts are - and the right-hand
+  parts are themselves monotone (so that right-hand values are well formed).  Instantiated with the same
+  expression it gives monotonicity (MonoLz.lean); with an expression and its simplified form, soundness of the
+  simplifier (Props/C02Sound.lean).
 -/
 import Fadl.Lemmas.RefinePrim3
 namespace Fadl
 set_option linter.unusedSimpArgs false
 
-def DRel (env env' : Env) (d d' : Den) : Prop := RLe (d env) (d' env')
+/-- the left result is refined by the right one, and the right one is well formed -/
+def DRel (env env' : Env) (d d' : Den) : Prop := RLe (d env) (d' env') ∧ RLe (d' env') (d' env')
 
 def LamRel (env env' : Env) (l l' : LamD) : Prop :=
-  FnLe (applyLam1 l env) (applyLam1 l' env') ∧ FnLe2 (applyLam2 l env) (applyLam2 l' env')
+  FnLe (applyLam1 l env) (applyLam1 l' env') ∧ FnLe (applyLam1 l' env') (applyLam1 l' env') ∧
+  FnLe2 (applyLam2 l env) (applyLam2 l' env') ∧ FnLe2 (applyLam2 l' env') (applyLam2 l' env')
 
 def HeadRel (env env' : Env) : Head → Head → Prop
   | .fn n, .fn n' => n = n'
-  | .meth r m, .meth r' m' => m = m' ∧ RLe (r env) (r' env')
+  | .meth r m, .meth r' m' => m = m' ∧ DRel env env' r r'
   | .lamH ps b, .lamH ps' b' =>
-    ∀ vs vs' kwn kvs kvs', VLeS vs vs' → VLeS kvs kvs' →
+    ∀ vs vs' kwn kvs kvs', VLeS vs vs' → VLeS vs' vs' → VLeS kvs kvs' → VLeS kvs' kvs' →
       RLe (bindParams ps vs kwn kvs env >>= b) (bindParams ps' vs' kwn kvs' env' >>= b')
   | .other, _ => True
   | _, _ => False
@@ -27,25 +30,31 @@ structure WorldOK (w : World) : Prop where
   func : ∀ n vs kwn kvs v, w.func n vs kwn kvs = .ok v → VLe v v
   method : ∀ m r vs kwn kvs v, w.method m r vs kwn kvs = .ok v → VLe v v
 
-theorem RLeS.bindR {r r' : Except EErr (List Val)} {k k' : List Val → Res} (h : RLeS r r')
-    (hk : ∀ vs vs', VLeS vs vs' → RLe (k vs) (k' vs')) : RLe (r >>= k) (r' >>= k') := by
+theorem RLeS.bindR {r r' : Except EErr (List Val)} {k k' : List Val → Res} (h : RLeS r r') (h' : RLeS r' r')
+    (hk : ∀ vs vs', VLeS vs vs' → VLeS vs' vs' → RLe (k vs) (k' vs')) : RLe (r >>= k) (r' >>= k') := by
   intro out ho
   cases r with
   | error e => exact absurd (show (Except.error e : Res) = .ok out from ho) (by simp)
   | ok vs =>
     obtain ⟨vs', hv', hvv⟩ := h vs rfl
-    obtain ⟨o', ho', hoo⟩ := hk vs vs' hvv out ho
+    obtain ⟨vs'', hv'', hvv'⟩ := h' vs' hv'
+    have : vs'' = vs' := by rw [hv'] at hv''; cases hv''; rfl
+    subst this
+    obtain ⟨o', ho', hoo⟩ := hk vs vs'' hvv hvv' out ho
     subst hv'
     exact ⟨o', ho', hoo⟩
 
-theorem RLeL.bindR {r r' : Except EErr (List Val)} {k k' : List Val → Res} (h : RLeL r r')
-    (hk : ∀ vs vs', VLeL vs vs' → RLe (k vs) (k' vs')) : RLe (r >>= k) (r' >>= k') := by
+theorem RLeL.bindR {r r' : Except EErr (List Val)} {k k' : List Val → Res} (h : RLeL r r') (h' : RLeL r' r')
+    (hk : ∀ vs vs', VLeL vs vs' → VLeL vs' vs' → RLe (k vs) (k' vs')) : RLe (r >>= k) (r' >>= k') := by
   intro out ho
   cases r with
   | error e => exact absurd (show (Except.error e : Res) = .ok out from ho) (by simp)
   | ok vs =>
     obtain ⟨vs', hv', hvv⟩ := h vs rfl
-    obtain ⟨o', ho', hoo⟩ := hk vs vs' hvv out ho
+    obtain ⟨vs'', hv'', hvv'⟩ := h' vs' hv'
+    have : vs'' = vs' := by rw [hv'] at hv''; cases hv''; rfl
+    subst this
+    obtain ⟨o', ho', hoo⟩ := hk vs vs'' hvv hvv' out ho
     subst hv'
     exact ⟨o', ho', hoo⟩
 
@@ -57,16 +66,25 @@ theorem All2_map_env {ds ds' : List Den} {env env' : Env} (h : All2 (DRel env en
     All2 RLe (ds.map (· env)) (ds'.map (· env')) := by
   induction h with
   | nil => exact .nil
-  | cons h1 _ ih => exact .cons h1 ih
+  | cons h1 _ ih => exact .cons h1.1 ih
+
+theorem All2_map_env_self {ds ds' : List Den} {env env' : Env} (h : All2 (DRel env env') ds ds') :
+    All2 RLe (ds'.map (· env')) (ds'.map (· env')) := by
+  induction h with
+  | nil => exact .nil
+  | cons h1 _ ih => exact .cons h1.2 ih
 
 theorem evalAll_rel {ds ds' : List Den} {env env' : Env} (h : All2 (DRel env env') ds ds') :
     RLeS (evalAll ds env) (evalAll ds' env') := seqRes_mono (All2_map_env h)
 
+theorem evalAll_rel_self {ds ds' : List Den} {env env' : Env} (h : All2 (DRel env env') ds ds') :
+    RLeS (evalAll ds' env') (evalAll ds' env') := seqRes_mono (All2_map_env_self h)
+
 theorem src_seq_rel {src src' : Den} {env env' : Env} (h : DRel env env' src src') {k k' : List Val → Res}
-    (hk : ∀ vs vs', VLeL vs vs' → RLe (k vs) (k' vs')) :
+    (hk : ∀ vs vs', VLeL vs vs' → VLeL vs' vs' → RLe (k vs) (k' vs')) :
     RLe (do let vs ← asSeq (← src env); k vs) (do let vs ← asSeq (← src' env'); k' vs) := by
   show RLe (src env >>= fun s => asSeq s >>= k) (src' env' >>= fun s => asSeq s >>= k')
-  exact RLe.bind h (fun s s' hs => RLeL.bindR (asSeq_rel hs) hk)
+  exact RLe.bind2 h.1 h.2 (fun s s' hs hs' => RLeL.bindR (asSeq_rel hs) (asSeq_rel hs') hk)
 
 theorem fnCallLz_rel (w : World) (hw : WorldOK w) (n : String) {args args' : List Den} {lams lams' : List LamD}
     (kwn : List String) {kwv kwv' : List Den} {env env' : Env}
@@ -79,14 +97,14 @@ theorem fnCallLz_rel (w : World) (hw : WorldOK w) (n : String) {args args' : Lis
     | nil => exact RLe.error _ _
     | cons ha1 ha2 =>
       cases ha2 with
-      | nil => exact src_seq_rel ha1 (fun vs vs' hv => seqOp1Lz_mono n hv)
+      | nil => exact src_seq_rel ha1 (fun vs vs' hv _ => seqOp1Lz_mono n hv)
       | cons ha2 ha3 =>
         cases ha3 with
         | nil =>
           cases hl with
           | nil => exact RLe.error _ _
           | cons hl1 hl2 => cases hl2 with
-            | nil => exact src_seq_rel ha1 (fun vs vs' hv => seqOp2Lz_mono n hl1.1 hv)
+            | nil => exact src_seq_rel ha1 (fun vs vs' hv hv' => seqOp2Lz_mono n hl1.1 hv hv')
             | cons _ _ => exact RLe.error _ _
         | cons ha3 ha4 =>
           cases ha4 with
@@ -100,17 +118,17 @@ theorem fnCallLz_rel (w : World) (hw : WorldOK w) (n : String) {args args' : Lis
                   simp only []
                   split
                   · apply src_seq_rel ha1
-                    intro vs vs' hv
-                    apply RLeS.bindR (forceAll_mono hv)
-                    intro xs xs' hx
-                    exact RLe.bind ha2 (fun i i' hi => foldM'_mono hl2.2 hx hi)
+                    intro vs vs' hv hv'
+                    apply RLeS.bindR (forceAll_mono hv) (forceAll_mono hv')
+                    intro xs xs' hx hx'
+                    exact RLe.bind2 ha2.1 ha2.2 (fun i i' hi hi' => foldM'_mono hl2.2.2.1 hl2.2.2.2 hx hx' hi hi')
                   · exact RLe.error _ _
                 | cons _ _ => exact RLe.error _ _
           | cons _ _ => exact RLe.error _ _
-  · apply RLeS.bindR (evalAll_rel ha)
-    intro vs vs' hv
-    apply RLeS.bindR (evalAll_rel hk)
-    intro kvs kvs' hkv
+  · apply RLeS.bindR (evalAll_rel ha) (evalAll_rel_self ha)
+    intro vs vs' hv _
+    apply RLeS.bindR (evalAll_rel hk) (evalAll_rel_self hk)
+    intro kvs kvs' hkv _
     by_cases hc : (Val.cleanL vs && Val.cleanL kvs) = true
     · have hc' := hc
       simp only [Bool.and_eq_true] at hc'
@@ -142,12 +160,12 @@ theorem callSemLz_rel (w : World) (hw : WorldOK w) {h h' : Head} {args args' : L
       simp only [callSemLz]
       split
       · exact fnCallLz_rel w hw m [] (.cons hr ha) hl .nil
-      · apply RLe.bind hr
+      · apply RLe.bind hr.1
         intro rv rv' hrv
-        apply RLeS.bindR (evalAll_rel ha)
-        intro vs vs' hv
-        apply RLeS.bindR (evalAll_rel hk)
-        intro kvs kvs' hkv
+        apply RLeS.bindR (evalAll_rel ha) (evalAll_rel_self ha)
+        intro vs vs' hv _
+        apply RLeS.bindR (evalAll_rel hk) (evalAll_rel_self hk)
+        intro kvs kvs' hkv _
         cases rv with
         | obj c fn fv =>
           obtain ⟨fv', rfl, hf⟩ := VLe_obj_left.mp hrv
@@ -168,17 +186,19 @@ theorem callSemLz_rel (w : World) (hw : WorldOK w) {h h' : Head} {args args' : L
     | lamH ps' b' =>
       simp only [HeadRel] at hh
       simp only [callSemLz]
-      apply RLeS.bindR (evalAll_rel ha)
-      intro vs vs' hv
-      apply RLeS.bindR (evalAll_rel hk)
-      intro kvs kvs' hkv
-      exact hh vs vs' kwn kvs kvs' hv hkv
+      apply RLeS.bindR (evalAll_rel ha) (evalAll_rel_self ha)
+      intro vs vs' hv hv'
+      apply RLeS.bindR (evalAll_rel hk) (evalAll_rel_self hk)
+      intro kvs kvs' hkv hkv'
+      exact hh vs vs' kwn kvs kvs' hv hv' hkv hkv'
     | _ => simp only [HeadRel] at hh
 
 theorem compSemLz_rel {x x' : String} {e e' i i' : Den} {ifs ifs' : List Den} (a : Bool) {env env' : Env}
-    (hi : RLe (i env) (i' env'))
-    (he : ∀ v v', VLe v v' → RLe (e (env.upd x v)) (e' (env'.upd x' v')))
-    (hifs : ∀ v v', VLe v v' → All2 RLe (ifs.map (· (env.upd x v))) (ifs'.map (· (env'.upd x' v')))) :
+    (hi : DRel env env' i i')
+    (he : ∀ v v', VLe v v' → VLe v' v' → RLe (e (env.upd x v)) (e' (env'.upd x' v')))
+    (he' : ∀ v v', VLe v v' → VLe v' v' → RLe (e' (env'.upd x' v)) (e' (env'.upd x' v')))
+    (hifs : ∀ v v', VLe v v' → VLe v' v' → All2 RLe (ifs.map (· (env.upd x v))) (ifs'.map (· (env'.upd x' v'))))
+    (hifs' : ∀ v v', VLe v v' → VLe v' v' → All2 RLe (ifs'.map (· (env'.upd x' v))) (ifs'.map (· (env'.upd x' v')))) :
     RLe (compSemLz (some x) e i ifs a env) (compSemLz (some x') e' i' ifs' a env') := by
   unfold compSemLz
   cases a with
@@ -186,13 +206,15 @@ theorem compSemLz_rel {x x' : String} {e e' i i' : Den} {ifs ifs' : List Den} (a
   | false =>
     simp only []
     apply src_seq_rel hi
-    intro vs0 vs0' hv0
-    apply RLeS.bindR (forceAll_mono hv0)
-    intro vs vs' hv
-    apply RLeS.bindR (filterMB_mono (fun v v' hvv b hb => condsHold_mono (hifs v v' hvv) b hb) hv)
-    intro keep keep' hkeep
-    apply RLeS.bindR (mapRes_mono (fun v v' hvv => he v v' hvv) hkeep)
-    intro rs rs' hrs
+    intro vs0 vs0' hv0 hv0'
+    apply RLeS.bindR (forceAll_mono hv0) (forceAll_mono hv0')
+    intro vs vs' hv hv'
+    apply RLeS.bindR (filterMB_mono (fun v v' hvv hvv' b hb => condsHold_mono (hifs v v' hvv hvv') b hb) hv hv')
+      (filterMB_mono (fun v v' hvv hvv' b hb => condsHold_mono (hifs' v v' hvv hvv') b hb) hv' hv')
+    intro keep keep' hkeep hkeep'
+    apply RLeS.bindR (mapRes_mono (fun v v' hvv hvv' => he v v' hvv hvv') hkeep hkeep')
+      (mapRes_mono (fun v v' hvv hvv' => he' v v' hvv hvv') hkeep' hkeep')
+    intro rs rs' hrs _
     intro out ho
     cases ho
     exact ⟨.list rs', rfl, by simp only [VLe]; exact hrs.toL⟩
